@@ -292,7 +292,7 @@ impl<'a> Model for TipModel<'a> {
             if p == 2 && t.forgeries < 2 {
                 let proven = sim.c().peers.get_state(&PeerIndex::new(p)).and_then(|s| s.get_prove_state().cloned()).is_some();
                 if proven {
-                    for variant in if self.more_forgeries { vec![0u8, 1, 2, 3, 4, 5] } else { vec![0u8, 1, 2, 3, 5] } {
+                    for variant in if self.more_forgeries { vec![0u8, 1, 2, 3, 4, 5] } else { vec![0u8, 1, 3, 5] } {
                         v.push(Ev::Forged(p, variant));
                     }
                 }
